@@ -332,10 +332,16 @@ func (w *World) overdrawCause(s *accountant.VerifSnap, a string, confirmed []*ac
 			spends = append(spends, v)
 		}
 	}
+	// a checkpointed vertex lies below the cut: it is part of the history of everything built since, so it
+	// is never "incomparable" with a later spend (the edges it had are gone, which must not look like a fork)
+	stored := hset{}
+	for i := range s.CpVertices {
+		stored[s.CpVertices[i].Hash] = true
+	}
 	for i := range spends {
 		ai := ancestorsOf(spends[i].Hash, par)
 		for j := range spends {
-			if i == j {
+			if i == j || stored[spends[i].Hash] || stored[spends[j].Hash] {
 				continue
 			}
 			aj := ancestorsOf(spends[j].Hash, par)
